@@ -77,6 +77,40 @@ def bare_symbol(v):
     return None
 
 
+def linear_in(v, symbols):
+    """(symbol, expr) with v == 0  <=>  symbol == expr, when v is a polynomial that is linear in one of `symbols` with a
+    constant coefficient (the other part may be anything without that symbol); else None."""
+    from .algebra import Poly
+    if not isinstance(v, Poly):
+        return None
+    for sym in symbols:
+        a, rest, ok = Poly.const(0), Poly.const(0), True
+        for mono, c in v.t.items():
+            d = dict(mono)
+            if sym in d:
+                if d[sym] != 1 or len(d) != 1:
+                    ok = False
+                    break
+                a = a + Poly.const(c)
+            else:
+                rest = rest + Poly({mono: c})
+        if ok and not a.is_zero():
+            return sym, -rest * a.inv()
+    return None
+
+
+def zero_substitution(rec):
+    """{symbol: expr} for the recorded truthiness decisions that came out as `== 0`; and the remaining records."""
+    sub, rest = {}, []
+    for v, o in rec:
+        if isinstance(v, tuple) and v[:1] == ('zero',):
+            if o:
+                sub[v[1]] = v[2]
+        else:
+            rest.append((v, o))
+    return sub, rest
+
+
 def approx_paths(run, fallback=None, max_paths=32, records=None, zero_symbols=()):
     """run(oracle) -> result.  Returns [(decisions, result, InterpRaise or None)], one entry per combination of outcomes of
     the tolerance predicates met; any other undetermined branch goes to `fallback` (None: analysis error)."""
@@ -95,12 +129,14 @@ def approx_paths(run, fallback=None, max_paths=32, records=None, zero_symbols=()
                     neg, e = not neg, Unk(e.expr[1])
                 rec.append((e, r != neg))
                 return r
-            sym = bare_symbol(value)
-            if sym is not None and sym in zero_symbols:
-                # truthiness of an input symbol (`if not x0:`): both x0 == 0 and x0 != 0 are inputs; the outcome is recorded
-                # so that the rule can judge the `== 0` side under that hypothesis
-                r = oracle(interp, node, fr, Unk(('fn', 'nonzero', sym)))
-                rec.append((('zero', sym), not r))
+            lin = linear_in(value, zero_symbols)
+            if lin is not None:
+                # truthiness of an input quantity (`if not x0:`, `x0 = x0 or ...`): both `== 0` and `!= 0` are inputs; the
+                # outcome is recorded with the substitution that makes the quantity zero, so that the rule can judge the
+                # `== 0` side under that hypothesis
+                sym, expr = lin
+                r = oracle(interp, node, fr, Unk(('fn', 'nonzero', repr(value))))
+                rec.append((('zero', sym, expr), not r))
                 return r
             return fallback(interp, node, fr, value) if fallback is not None else None
         return run(o)
